@@ -527,6 +527,9 @@ def search(ctx, rep, disagreements):
 
 
 def replay(ctx, rep, case):
+    if 'prog' not in case:          # a text-only case of the whole-script tie (no AST, hence no reference meaning)
+        import pipeline_common
+        return pipeline_common.replay(ctx, rep, case)
     impl = observe(case, rep)
     print('  script :', case['text'].replace('\n', ' ⏎ '))
     if impl and not impl.get('error'):
